@@ -104,17 +104,20 @@ Definition joined_or_err (env : answers) (i : rinfo) (nid : N) : bool :=
   end.
 
 (* ---------- the register (one stored value, CAS on its modification index) ---------- *)
-Record reg := mkReg { r_info : rinfo; r_counter : N; r_fail : N }.
+(* r_mode: 0 = healthy; 1 = etcd unreachable but the register's namespace cache still serves reads
+   (GetRemoteNamespaceReplicaInfo, the KV store and every update fail); 2 = every read and update fails *)
+Record reg := mkReg { r_info : rinfo; r_counter : N; r_fail : N; r_mode : N }.
 (* an update attempt: the stored value before it, the value passed, the old generation passed, the outcome *)
 Record attempt := mkAtt { a_before : rinfo; a_value : rinfo; a_gen : N; a_ok : bool }.
 
 Definition reg_update (r : reg) (v : rinfo) (gen : N) : reg * option rinfo * attempt :=
-  if 0 <? r_fail r then
-    (mkReg (r_info r) (r_counter r) (r_fail r - 1), None, mkAtt (r_info r) v gen false)
+  if 0 <? r_mode r then (r, None, mkAtt (r_info r) v gen false)
+  else if 0 <? r_fail r then
+    (mkReg (r_info r) (r_counter r) (r_fail r - 1) (r_mode r), None, mkAtt (r_info r) v gen false)
   else if gen =? epoch (r_info r) then
     let c := r_counter r + 1 in
     let v' := set_epoch v c in
-    (mkReg v' c (r_fail r), Some v', mkAtt (r_info r) v gen true)
+    (mkReg v' c (r_fail r) (r_mode r), Some v', mkAtt (r_info r) v gen true)
   else (r, None, mkAtt (r_info r) v gen false).
 
 Inductive code :=
@@ -305,7 +308,11 @@ Definition do_check (s : st) (full : bool) (place_all place_avail : placement) :
   let lost := negb (forallb (fun n => mem n cur) (isr info)) in
   let need := short || lost in
   let check_ok := negb need in
-  if len cur <=? s_stable s / 2 then check_finish s full false r0 (s_unstable s) (s_waiting s) false true []
+  (* GetAllNamespaces / GetNamespacePartInfo fail: isClusterUnstable = 1 and return (before the deferred function exists) *)
+  if 1 <? r_mode r0 then (upd_flags s r0 true (s_waiting s), false, [])
+  else if len cur <=? s_stable s / 2 then check_finish s full false r0 (s_unstable s) (s_waiting s) false true []
+  (* GetRemoteNamespaceReplicaInfo fails: unstable, checkOK = false, continue *)
+  else if 0 <? r_mode r0 then check_finish s full false r0 true (s_waiting s) false true []
   else
     (* removings first *)
     let '(_, r1, info1, w1) :=
@@ -438,6 +445,7 @@ Definition process_removing (s : st) (place : placement) : st * bool * list atte
   match rm with
   | [] => (s, false, [])     (* handleRemovingNodes: nothing to do *)
   | _ =>
+    if 1 <? r_mode (s_reg s) then (s, false, []) else      (* GetAllNamespaces fails *)
     let info0 := r_info (s_reg s) in
     match check_pending (s_ans s) info0 rm with
     | Some rm' =>
@@ -507,7 +515,8 @@ Definition rebalance (s : st) (place : placement) : st * bres * list attempt :=
   let env := s_ans s in
   let r0 := s_reg s in
   let info0 := r_info r0 in
-  if s_unstable s || s_upgrading s then (s, BRet false false, [])
+  if 1 <? r_mode r0 then (s, BRet false false, [])
+  else if s_unstable s || s_upgrading s then (s, BRet false false, [])
   else if 0 <? len (s_rmnodes s) then (s, BRet false false, [])
   else if 0 <? len (removings info0) then (s, BRet false true, [])
   else if negb (all_ready env info0) then (s, BRet false true, [])
@@ -605,6 +614,7 @@ Definition learner_remove_all (r : reg) (info : rinfo) : loutcome :=
 Definition learner_check (s : st) : reg * list attempt :=
   let r0 := s_reg s in
   let info := r_info r0 in
+  if 0 <? r_mode r0 then (r0, []) else      (* GetKV fails *)
   match s_lstart s with
   | None => (r0, [])
   | Some false => let '(_, r, _, w) := learner_remove_all r0 info in (r, w)
@@ -650,7 +660,8 @@ Inductive event :=
   | ELRemove (n : N) (check : bool)
   | ELRemoveAll
   | EReplica (r : N)        (* pd_api.go ChangeNamespaceMetaParam(newReplicator = r) *)
-  | EUpgrade (b : bool).    (* pd_api.go SetClusterUpgradeState *)
+  | EUpgrade (b : bool)     (* pd_api.go SetClusterUpgradeState *)
+  | ERegMode (m : N).       (* the register becomes healthy / partly / wholly unreachable *)
 
 Definition set_answers (env : answers) (l : list (N * option (option (list (N * N)) * bool))) : answers :=
   fold_left (fun e p => match snd p with
@@ -681,7 +692,8 @@ Definition step (s : st) (e : event) : st * ret * list attempt :=
   | EFinish =>
       let '(_, r, _, w) := remove_from_removings (s_replica s) (s_ans s) (s_now s) (s_reg s) (r_info (s_reg s)) in
       (upd_reg s r, RNone, w)
-  | EFail k => (upd_reg s (mkReg (r_info (s_reg s)) (r_counter (s_reg s)) k), RNone, [])
+  | EFail k => (upd_reg s (mkReg (r_info (s_reg s)) (r_counter (s_reg s)) k (r_mode (s_reg s))), RNone, [])
+  | ERegMode m => (upd_reg s (mkReg (r_info (s_reg s)) (r_counter (s_reg s)) (r_fail (s_reg s)) m), RNone, [])
   | EAuto b =>
       (mkSt (s_replica s) (s_reg s) (s_ans s) (s_nodes s) (s_nepoch s) (s_stable s)
             (s_unstable s) b (s_waiting s) (s_rmnodes s) (s_now s) (s_lnodes s) (s_lstart s) (s_upgrading s), RNone, [])
@@ -692,6 +704,7 @@ Definition step (s : st) (e : event) : st * ret * list attempt :=
   | EProcess place => let '(s', p, w) := process_removing s place in (s', if p then RPanic else RNone, w)
   | ELCheck => let '(r, w) := learner_check s in (upd_reg s r, RNone, w)
   | ELStart b =>
+      if 0 <? r_mode (s_reg s) then (s, RNone, []) else
       (mkSt (s_replica s) (s_reg s) (s_ans s) (s_nodes s) (s_nepoch s) (s_stable s)
             (s_unstable s) (s_auto s) (s_waiting s) (s_rmnodes s) (s_now s) (s_lnodes s) (Some b) (s_upgrading s), RNone, [])
   | ELAdd n => let '(c, r, _, w) := learner_add (s_reg s) (r_info (s_reg s)) n in (upd_reg s r, RL c, w)
@@ -701,10 +714,12 @@ Definition step (s : st) (e : event) : st * ret * list attempt :=
   | ELRemoveAll => let '(c, r, _, w) := learner_remove_all (s_reg s) (r_info (s_reg s)) in (upd_reg s r, RL c, w)
   | EReplica r =>
       if 5 <? r then (s, RCode CRegErr, [])
+      else if 1 <? r_mode (s_reg s) then (s, RCode CRegErr, [])      (* GetNamespaceMetaInfo fails *)
       else let nr := if 0 <? r then r else s_replica s in
            if len (avail_nodes s) <? nr then (s, RCode CNoNode, [])
+           else if 0 <? r_mode (s_reg s) then (s, RCode CRegErr, []) (* UpdateNamespaceMetaInfo fails *)
            else (* the meta write takes the register's next modification index *)
-                (mkSt nr (mkReg (r_info (s_reg s)) (r_counter (s_reg s) + 1) (r_fail (s_reg s))) (s_ans s) (s_nodes s) (s_nepoch s) (s_stable s) (s_unstable s) (s_auto s)
+                (mkSt nr (mkReg (r_info (s_reg s)) (r_counter (s_reg s) + 1) (r_fail (s_reg s)) (r_mode (s_reg s))) (s_ans s) (s_nodes s) (s_nepoch s) (s_stable s) (s_unstable s) (s_auto s)
                       (s_waiting s) (s_rmnodes s) (s_now s) (s_lnodes s) (s_lstart s) (s_upgrading s), RCode COk, [])
   | EUpgrade b =>
       (mkSt (s_replica s) (s_reg s) (s_ans s) (s_nodes s) (s_nepoch s) (s_stable s) (s_unstable s) (s_auto s)
@@ -717,4 +732,4 @@ Definition run_step (acc : st * list (N * attempt)) (e : event) : st * list (N *
 Definition run (s : st) (evs : list event) : st * list (N * attempt) := fold_left run_step evs (s, []).
 
 Definition init_state (replica : N) (info : rinfo) (auto : bool) : st :=
-  mkSt replica (mkReg (set_epoch info 1) 1 0) [] [] 0 0 false auto None [] 1000 [] None false.
+  mkSt replica (mkReg (set_epoch info 1) 1 0 0) [] [] 0 0 false auto None [] 1000 [] None false.
